@@ -56,7 +56,26 @@ namespace sim
         Rng rng_sched, rng_fault, rng_clock;
         Stats st;
         std::vector<int> tr;
+        std::vector<long long> tape_out;
+        size_t tape_pos = 0;
+        bool yielding   = false;          // the running thread gave up the processor voluntarily (sim::yield)
         bool log_on = true;
+
+        // one decision: the PRNG's in a seeded run, the tape's in a replay (dflt beyond its end); 0 = nothing unusual
+        template <typename F>
+        long long draw(F &&seeded, long long dflt = 0)
+        {
+            long long v;
+            if (cfg.use_tape)
+            {
+                v = tape_pos < cfg.tape.size() ? cfg.tape[tape_pos] : dflt;
+                ++tape_pos;
+                if (v < 0) v = 0;
+            }
+            else v = seeded();
+            if (cfg.record_tape || cfg.use_tape) tape_out.push_back(v);
+            return v;
+        }
         // clock-only mode
         double co_stall_rate = 0;
         long long co_stall_max = 0;
@@ -116,21 +135,31 @@ namespace sim
             {
                 if (st.steps >= cfg.max_steps) die("step limit", 4);
                 // faults that act between steps
-                if (cfg.p_stall > 0 && rng_fault.unit() < cfg.p_stall)
+                const long long stall_d = cfg.p_stall > 0 ? draw([&]() -> long long {
+                    if (!(rng_fault.unit() < cfg.p_stall)) return 0;
+                    return 1 + static_cast<long long>(rng_fault.next() % static_cast<unsigned long long>(std::max<long long>(1, cfg.stall_max_us)));
+                }) : 0;
+                if (stall_d > 0)
                 {
-                    long long d = 1 + static_cast<long long>(rng_fault.next() % static_cast<unsigned long long>(std::max<long long>(1, cfg.stall_max_us)));
+                    long long d = stall_d;
                     now += d;
                     ++st.stalls;
                     if (log_on) hv::Line("sched").str("why", "stall").i("us", d).i("seq", st.steps).i("wall", now - cfg.start_wall_us).emit();
                 }
                 expire_timed();
-                if (cfg.p_spurious > 0 && rng_fault.unit() < cfg.p_spurious)
+                const long long spur = cfg.p_spurious > 0 ? draw([&]() -> long long {
+                    if (!(rng_fault.unit() < cfg.p_spurious)) return 0;
+                    size_t nw = 0;
+                    for (Th *t : threads) if (t->st == BLK_COND) ++nw;
+                    return nw == 0 ? 0 : 1 + static_cast<long long>(rng_fault.next() % nw);
+                }) : 0;
+                if (spur > 0)
                 {
                     std::vector<Th *> w;
                     for (Th *t : threads) if (t->st == BLK_COND) w.push_back(t);
                     if (!w.empty())
                     {
-                        Th *t        = w[rng_fault.next() % w.size()];
+                        Th *t        = w[static_cast<size_t>(spur - 1) % w.size()];
                         t->st        = RUN;
                         t->timed_out = false;
                         ++st.spurious;
@@ -152,9 +181,13 @@ namespace sim
                         die("deadlock", 5);
                     }
                     if (best->wake > now) { now = best->wake; ++st.clock_jumps; }
-                    if (cfg.p_late > 0 && rng_fault.unit() < cfg.p_late)
+                    const long long late_d = cfg.p_late > 0 ? draw([&]() -> long long {
+                        if (!(rng_fault.unit() < cfg.p_late)) return 0;
+                        return 1 + static_cast<long long>(rng_fault.next() % static_cast<unsigned long long>(std::max<long long>(1, cfg.late_max_us)));
+                    }) : 0;
+                    if (late_d > 0)
                     {
-                        now += 1 + static_cast<long long>(rng_fault.next() % static_cast<unsigned long long>(std::max<long long>(1, cfg.late_max_us)));
+                        now += late_d;
                         ++st.late;
                     }
                     // nobody is runnable, so nobody is left who could still notify: a *forced* timeout
@@ -171,20 +204,27 @@ namespace sim
                     for (Th *t : runnable) if (t->id != cfg.starve_thread) r2.push_back(t);
                     if (r2.size() != runnable.size()) { ++st.starved; runnable.swap(r2); }
                 }
-                Th *next = nullptr;
-                if (cfg.use_decisions)
-                {
-                    if (static_cast<size_t>(st.steps) < cfg.decisions.size())
-                        for (Th *t : runnable) if (t->id == cfg.decisions[st.steps]) next = t;
-                    if (!next) next = runnable.front();
-                }
+                // default decision: the running thread keeps the processor; if it blocked, finished or yielded, the next
+                // runnable thread in id order after it
+                Th *dflt = nullptr;
+                const bool me_runnable = me != nullptr && me->st == RUN;
+                if (me_runnable && !(yielding && runnable.size() > 1)) dflt = me;
                 else
                 {
-                    next = runnable[rng_sched.next() % runnable.size()];
+                    for (Th *t : runnable) if (me == nullptr || t->id > me->id) { if (t != me) { dflt = t; break; } }
+                    if (!dflt) for (Th *t : runnable) if (t != me) { dflt = t; break; }
+                    if (!dflt) dflt = runnable.front();
                 }
+                yielding = false;
+                const long long cv = draw([&]() -> long long {
+                    const size_t k = static_cast<size_t>(rng_sched.next() % runnable.size());
+                    return runnable[k] == dflt ? 0 : static_cast<long long>(k) + 1;
+                });
+                Th *next = cv == 0 ? dflt : runnable[static_cast<size_t>(cv - 1) % runnable.size()];
                 ++st.steps;
                 tr.push_back(next->id);
-                if (cfg.step_jitter_us > 0) now += static_cast<long long>(rng_sched.next() % static_cast<unsigned long long>(cfg.step_jitter_us));
+                if (cfg.step_jitter_us > 0)
+                    now += draw([&]() -> long long { return static_cast<long long>(rng_sched.next() % static_cast<unsigned long long>(cfg.step_jitter_us)); }, 1);
                 (void)me;
                 return next;
             }
@@ -284,7 +324,13 @@ namespace sim
             if (!w.empty())
             {
                 if (all) for (Th *t : w) { t->st = RUN; t->timed_out = false; }
-                else { Th *t = w[rng_sched.next() % w.size()]; t->st = RUN; t->timed_out = false; }
+                else
+                {
+                    const long long k = draw([&]() -> long long { return static_cast<long long>(rng_sched.next() % w.size()); });
+                    Th *t = w[static_cast<size_t>(k) % w.size()];
+                    t->st = RUN;
+                    t->timed_out = false;
+                }
             }
             reschedule();
         }
@@ -319,6 +365,9 @@ namespace sim
         now = c.start_wall_us;
         st  = Stats{};
         tr.clear();
+        tape_out.clear();
+        tape_pos = 0;
+        yielding = false;
         threads.clear();
         mutexes.clear();
     }
@@ -343,7 +392,7 @@ namespace sim
     }
     bool in_sim() { return on(); }
     int self_id() { return self ? self->id : -1; }
-    void yield() { if (on()) reschedule(); }
+    void yield() { if (on()) { yielding = true; reschedule(); } }
     void sleep_us(long long d)
     {
         if (!on()) return;
@@ -359,6 +408,7 @@ namespace sim
     long long seq() { return st.steps; }
     const Stats &stats() { return st; }
     const std::vector<int> &trace() { return tr; }
+    const std::vector<long long> &tape_record() { return tape_out; }
     unsigned long long trace_hash()
     {
         unsigned long long h = 1469598103934665603ULL;
